@@ -25,6 +25,24 @@ def ity(t):
     return "{| bits := %d; sg := %s |}" % (t[1], "true" if t[2] else "false")
 
 
+def gen_const_functions():
+    """operators with one constant operand (ssa.Builder takes different paths when it sees a constant divisor,
+    dividend or count); compared end to end only"""
+    fs = []
+    for t in INTS:
+        n, w, sg = t
+        mn = "-1 << %d" % (w - 1) if sg else "0"
+        cases = [("q3", "x / 3"), ("r3", "x % 3"), ("q7", "x / 7"), ("shl3", "x << 3"), ("shrw1", "x >> %d" % (w - 1)),
+                 ("shl0", "x << 0"), ("c1shl", "1 << (x & 127)"), ("cshr", "%s(100) >> (x & 127)" % n),
+                 ("cdiv", "%s(100) / x" % n), ("crem", "%s(100) %% x" % n), ("andc", "x &^ 15"), ("mulc", "x * 37")]
+        if sg:
+            cases += [("qm1", "x / -1"), ("rm1", "x % -1"), ("mindiv", "%s(%s) / x" % (n, mn)), ("minrem", "%s(%s) %% x" % (n, mn)),
+                      ("negc", "-x / 2")]
+        for cn, ex in cases:
+            fs.append(("k_%s_%s" % (cn, n), "func k_%s_%s(x %s) %s { return %s }" % (cn, n, n, n, ex), None, ("un", None, t, None, "")))
+    return fs
+
+
 def gen_functions():
     """[(go name, go source, coq key, meta)]"""
     fs = []
@@ -401,6 +419,8 @@ def run(ck):
         return (a, b), None
 
     seed = ck.seed
+    fs_ir = fs
+    fs = fs + gen_const_functions()          # constant-operand variants: end to end only
     res, err = build_and_run(gen_eval_program(fs, seed), "all")
     evals = 0
     differing = []
